@@ -1,11 +1,11 @@
-import Lemmas.NatSort
+import Lemmas.NatSortGo
 /-! # C20 — natural string ordering is a consistent total order
 
 Property theorems only (helper lemmas live in `Lemmas/NatSort.lean`, the executable model in `Model/NatSort.lean`).
 `naturalCmp a b ci : Int` is the model of `txt.NaturalCmp` on byte lists; it is run against the Go function on every
 check.  All theorems quantify over all byte lists (bytes as `Nat`; no length bound) and both case modes. -/
 namespace C20
-open NatSort
+open NatSort NatSortGo
 
 /-- the result is always −1, 0 or 1 -/
 theorem cmp_range (a b : List Nat) (ci : Bool) :
@@ -225,5 +225,196 @@ example : val [48, 49, 50, 51] = 123 := by simp [val]
 /-! non-vacuity: the hypotheses of `cmp_trans` are met by concrete strings ("a2" ≤ "a12" ≤ "b") -/
 example : naturalCmp [97, 50] [97, 49, 50] false ≤ 0 ∧ naturalCmp [97, 49, 50] [98] false ≤ 0 := by
   simp [naturalCmp, ncmp, ncmpLoop, isDigit, dg, zc, rs, dropZeros, takeDigits, fold, cmpNat, ordInt]
+
+/-! ## the index-level transcription of the Go function (Model/NatSortGo.lean) -/
+
+/-- the statement-for-statement transcription of `NaturalCmp` with the two scan indices, the (duplicated) zero-skipping
+    loops, the comparison of the POSITIONS `nz1`, `nz2` and the recursive tail computes the chunk-level model on which
+    all order theorems are stated — for all byte strings, both modes, no bound; `g1`, `g2` are any accessors that read
+    the bytes of the two strings -/
+theorem go_transcription_refines (ci : Bool) (l1 l2 : List Nat) (g1 g2 : Nat → Nat)
+    (h1 : Reads g1 l1) (h2 : Reads g2 l2) : goCmp ci l1.length l2.length g1 g2 = naturalCmp l1 l2 ci :=
+  goCmp_spec ci l1 l2 g1 g2 h1 h2
+
+/-- … in the form the driver runs (`cmp` lines: byte arrays) -/
+theorem go_transcription_arrays (a b : Array Nat) (ci : Bool) : naturalCmpA a b ci = naturalCmp a.toList b.toList ci := by
+  have := goCmp_spec ci a.toList b.toList _ _ (reads_array a) (reads_array b)
+  simpa [naturalCmpA] using this
+
+/-- hence every order theorem holds of the transcription itself, e.g. "0 only for identical strings" -/
+theorem go_transcription_zero_iff (a b : Array Nat) (ci : Bool) : naturalCmpA a b ci = 0 ↔ a = b := by
+  rw [go_transcription_arrays, cmp_zero_iff]
+  constructor
+  · intro h; cases a; cases b; simp_all
+  · intro h; rw [h]
+
+/-- the source's "comparing the index after the zeros is sufficient": the loop invariant `i1 = i2` at every loop head is
+    what makes comparing positions the same as comparing zero counts (`goLoop_spec` is proved for equal indices); the
+    second zero-skipping loop for `s1` is dead code -/
+theorem go_second_zero_loop_dead (n : Nat) (g : Nat → Nat) (i : Nat) :
+    skipZeros n g (skipZeros n g i) = skipZeros n g i := skipZeros_idem n g i
+
+/-! ## the sort helpers, specification level (independent of the sorting algorithm) -/
+
+/-- ANY procedure whose result is a permutation of its input that is ascending with respect to `NaturalCmp(·,·,true)`
+    returns exactly the list the model returns — whatever algorithm `slices.SortFunc` uses, stable or not (stability is
+    void: `cmp_zero_iff`, two elements that compare 0 are the same string) -/
+theorem sort_spec_asc (l out : List (List Nat)) (hp : out.Perm l)
+    (hs : out.Pairwise (fun a b => naturalCmp a b true ≤ 0)) : out = sortAsc l :=
+  sorted_perm_unique out (sortAsc l) (hp.trans (sortAsc_perm l).symm) hs (sortAsc_sorted l)
+
+/-- the same for the descending helper -/
+theorem sort_spec_desc (l out : List (List Nat)) (hp : out.Perm l)
+    (hs : out.Pairwise (fun a b => naturalCmp b a true ≤ 0)) : out = sortDesc l := by
+  apply List.Perm.eq_of_pairwise (le := fun a b => naturalCmp b a true ≤ 0) _ hs (sortDesc_sorted l)
+    (hp.trans (sortDesc_perm l).symm)
+  intro a b _ _ hab hba
+  have := cmp_antisymm a b true
+  exact (cmp_zero_iff a b true).mp (by omega)
+
+/-- as functions: a sorting function is determined by its specification -/
+theorem sort_fn_unique (f : List (List Nat) → List (List Nat)) (hp : ∀ l, (f l).Perm l)
+    (hs : ∀ l, (f l).Pairwise (fun a b => naturalCmp a b true ≤ 0)) : f = sortAsc :=
+  funext fun l => sort_spec_asc l (f l) (hp l) (hs l)
+
+/-- "sorting with it is deterministic": the result does not depend on the order in which the input arrives -/
+theorem sort_input_order_irrelevant (l₁ l₂ : List (List Nat)) (h : l₁.Perm l₂) : sortAsc l₁ = sortAsc l₂ :=
+  sort_spec_asc l₂ (sortAsc l₁) ((sortAsc_perm l₁).trans h) (sortAsc_sorted l₁)
+
+/-- descending is the reverse of ascending -/
+theorem sortDesc_eq_reverse (l : List (List Nat)) : sortDesc l = (sortAsc l).reverse := by
+  symm
+  apply sort_spec_desc l
+  · exact (List.reverse_perm _).trans (sortAsc_perm l)
+  · rw [List.pairwise_reverse]; exact sortAsc_sorted l
+
+/-- sorting a sorted list changes nothing -/
+theorem sortAsc_idem (l : List (List Nat)) : sortAsc (sortAsc l) = sortAsc l :=
+  (sort_spec_asc (sortAsc l) (sortAsc l) (List.Perm.refl _) (sortAsc_sorted l)).symm
+
+/-- the helpers agree with `NaturalLess`: no later element of the result is less than an earlier one, and when the
+    input has no duplicates every earlier element IS less than every later one -/
+theorem sortAsc_less (l : List (List Nat)) :
+    (sortAsc l).Pairwise (fun a b => naturalLess b a true = false) ∧
+      (l.Nodup → (sortAsc l).Pairwise (fun a b => naturalLess a b true = true)) := by
+  constructor
+  · refine (sortAsc_sorted l).imp ?_
+    intro a b h
+    have := cmp_antisymm a b true
+    simp [naturalLess]; omega
+  · intro hn
+    have hn' : (sortAsc l).Nodup := (sortAsc_perm l).nodup_iff.mpr hn
+    refine ((sortAsc_sorted l).and hn').imp ?_
+    intro a b ⟨h, hne⟩
+    have hz := cmp_zero_iff a b true
+    simp only [naturalLess, decide_eq_true_eq]
+    rcases Int.lt_or_eq_of_le h with h | h
+    · exact h
+    · exact absurd (hz.mp h) hne
+
+/-- `NaturalLess` is a strict total order: exactly one of `a < b`, `a = b`, `b < a` -/
+theorem less_trichotomy (a b : List Nat) (ci : Bool) :
+    (naturalLess a b ci = true ∧ a ≠ b ∧ naturalLess b a ci = false) ∨
+    (naturalLess a b ci = false ∧ a = b ∧ naturalLess b a ci = false) ∨
+    (naturalLess a b ci = false ∧ a ≠ b ∧ naturalLess b a ci = true) := by
+  have h1 := cmp_antisymm a b ci
+  have h2 := cmp_zero_iff a b ci
+  have h3 := cmp_range a b ci
+  simp only [naturalLess, decide_eq_true_eq, decide_eq_false_iff_not]
+  by_cases hab : a = b
+  · right; left; have := h2.mpr hab; exact ⟨by omega, hab, by omega⟩
+  · have : naturalCmp a b ci ≠ 0 := fun h => hab (h2.mp h)
+    rcases h3 with h | h | h
+    · left; exact ⟨by omega, hab, by omega⟩
+    · exact absurd h this
+    · right; right; exact ⟨by omega, hab, by omega⟩
+
+/-- CONTRAST: with the folded scan alone (no case-sensitive second pass) two different strings compare 0 and a sorted
+    permutation is no longer unique — the class of change in which the helpers sort with the inner scan -/
+theorem scan_only_not_deterministic :
+    scanOnlyCmp [97] [65] = 0 ∧ scanOnlyCmp [65] [97] = 0 ∧
+    ∃ l₁ l₂ : List (List Nat), l₁.Perm l₂ ∧ l₁.Pairwise (fun a b => scanOnlyCmp a b ≤ 0) ∧
+      l₂.Pairwise (fun a b => scanOnlyCmp a b ≤ 0) ∧ l₁ ≠ l₂ := by
+  have e1 : scanOnlyCmp [97] [65] = 0 := by
+    simp [scanOnlyCmp, ncmpLoop, isDigit, fold, cmpNat, ordInt]
+  have e2 : scanOnlyCmp [65] [97] = 0 := by
+    simp [scanOnlyCmp, ncmpLoop, isDigit, fold, cmpNat, ordInt]
+  refine ⟨e1, e2, [[97], [65]], [[65], [97]], List.Perm.swap _ _ _, ?_, ?_, by simp⟩
+  · simp [e1]
+  · simp [e2]
+
+/-! ## numbers beyond a machine word -/
+
+/-- two digit strings whose values agree modulo 2^64 but differ are still ordered by their true values; a comparison
+    through a 64-bit accumulator (`wordVal`) cannot tell them apart -/
+theorem no_word_wrap (a b : List Nat) (ci : Bool)
+    (ha : ∀ c ∈ a, isDigit c = true) (hb : ∀ c ∈ b, isDigit c = true) (h : val a < val b) :
+    naturalCmp a b ci = -1 ∧ naturalCmp b a ci = 1 := by
+  have := digits_value_lt a b ci ha hb h
+  have := cmp_antisymm a b ci
+  omega
+
+/-- the witnesses of the contrast: "0" and "18446744073709551616" = 2^64 have the same 64-bit accumulator value -/
+theorem word_wrap_witness :
+    wordVal [48] = wordVal [49,56,52,52,54,55,52,52,48,55,51,55,48,57,53,53,49,54,49,54] ∧
+    naturalCmp [48] [49,56,52,52,54,55,52,52,48,55,51,55,48,57,53,53,49,54,49,54] true = -1 := by
+  constructor
+  · simp [wordVal]
+  · exact (no_word_wrap _ _ _ (by simp [isDigit]) (by simp [isDigit]) (by simp [val])).1
+
+/-! ## ASCII-only case folding, non-ASCII bytes, invalid UTF-8
+
+The model is on raw bytes: nothing is decoded, so every statement above already covers byte strings that are not valid
+UTF-8.  The following make the treatment of bytes ≥ 0x80 explicit. -/
+
+/-- every byte ≥ 0x80 — all bytes of multi-byte UTF-8 sequences and all bytes that cannot occur in UTF-8 (0xC0, 0xC1,
+    0xF5–0xFF, stray continuation bytes) — is a non-digit, is never folded, and is a chunk of its own -/
+theorem nonascii_byte (c : Nat) (t : List Nat) (ci : Bool) (h : 128 ≤ c) :
+    isDigit c = false ∧ fold ci c = c ∧ key ci (c :: t) = Chunk.byte c :: key ci t := by
+  have hd : isDigit c = false := by
+    simp only [isDigit, Bool.and_eq_false_iff, decide_eq_false_iff_not]; right; omega
+  have hf : fold ci c = c := by
+    unfold fold
+    have : (decide (c ≤ 122)) = false := by simp; omega
+    simp [this]
+  refine ⟨hd, hf, ?_⟩
+  rw [key]; simp [hd, hf]
+
+/-- folding changes exactly the 26 bytes `a`–`z`, maps them onto `A`–`Z`, and never produces or removes a byte ≥ 0x80 -/
+theorem fold_exact (c : Nat) :
+    (fold true c ≠ c ↔ 97 ≤ c ∧ c ≤ 122) ∧ (97 ≤ c ∧ c ≤ 122 → 65 ≤ fold true c ∧ fold true c ≤ 90) ∧
+      (128 ≤ fold true c ↔ 128 ≤ c) := by
+  have := (fold_spec c).2
+  by_cases h : 97 ≤ c ∧ c ≤ 122
+  · rw [this, if_pos h]; omega
+  · rw [this, if_neg h]; simp [h]
+
+/-- strings made of bytes ≥ 0x80 only (any mixture of valid and invalid UTF-8) compare bytewise in BOTH modes: "É" and
+    "é" are not case variants of each other for `NaturalCmp` -/
+theorem nonascii_bytewise (a b : List Nat) (ci : Bool) (ha : ∀ c ∈ a, 128 ≤ c) (hb : ∀ c ∈ b, 128 ≤ c) :
+    ncmp a b ci = cmpBytes a b := by
+  have da : ∀ c ∈ a, isDigit c = false := fun c hc => (nonascii_byte c [] ci (ha c hc)).1
+  have db : ∀ c ∈ b, isDigit c = false := fun c hc => (nonascii_byte c [] ci (hb c hc)).1
+  have e : ncmp a b ci = ncmp a b false := by
+    cases ci
+    · rfl
+    · exact ncmp_ci_eq_cs a b (fun c hc => by have := ha c hc; omega) (fun c hc => by have := hb c hc; omega)
+  rw [e, bytes_bytewise a b da db]
+
+/-- the case mode matters only through lower-case ASCII letters: without `a`–`z` in either string both modes agree -/
+theorem modes_agree_without_lowercase (a b : List Nat)
+    (ha : ∀ c ∈ a, ¬ (97 ≤ c ∧ c ≤ 122)) (hb : ∀ c ∈ b, ¬ (97 ≤ c ∧ c ≤ 122)) :
+    naturalCmp a b true = naturalCmp a b false := by
+  unfold naturalCmp; rw [ncmp_ci_eq_cs a b ha hb]
+
+/-! non-vacuity: "É" (c3 89) < "é" (c3 a9) in case-insensitive mode, an invalid sequence (ff) sorts after both -/
+example : ncmp [0xc3, 0x89] [0xc3, 0xa9] true = .lt := by
+  rw [nonascii_bytewise _ _ _ (by simp) (by simp)]; simp [cmpBytes]
+example : ncmp [0xc3, 0xa9] [0xff] true = .lt := by
+  rw [nonascii_bytewise _ _ _ (by simp) (by simp)]; simp [cmpBytes]
+example : sortAsc [[98], [97]] = [[97], [98]] := by
+  symm; apply sort_spec_asc
+  · exact List.Perm.swap _ _ _
+  · simp [naturalCmp, ncmp, ncmpLoop, isDigit, fold, cmpNat, ordInt]
 
 end C20
